@@ -53,3 +53,13 @@ CHECKS["C18"] = dict(
     outside=["more than 6 operations", "PopAtTimestamp/Peek(bool)/SetPlayoutHead", "event listeners", "the receiver interceptor wrapper"],
     assumptions=["sync.Mutex engine primitive", "pointer identity is concrete in the engine"],
 )
+
+CHECKS["C15"] = dict(
+    jobs=[dict(pkg="pkg/twcc", entry="HC15Step", params=dict(shape=s)) for s in (0, 1, 2, 3)] + [
+        dict(pkg="pkg/twcc", entry="HC15Streams", params=dict(writes=4), thorough=dict(params=dict(writes=6))),
+    ],
+    bounds=dict(quick="one write from ANY counter value (2^32) with any id 1..14, 4 header shapes (none / one-byte other ext / same id present / two-byte profile), 3 symbolic payload bytes; induction gives any number of packets (>2^16 included). Streams: 2 negotiated (ids 3,7) + 1 not negotiated, 4 writes in any order (sequential), any start counter",
+                thorough="6 writes"),
+    outside=["truly concurrent writers (atomicity of the counter is the C10 discipline check)", "header shapes for which SetExtension legitimately fails (id 15 one-byte, RFC3550 profile)"],
+    assumptions=["sync/atomic.AddUint32 is one atomic step"],
+)
